@@ -79,6 +79,11 @@ CLAIMED["C18"] = dict(
    note="Trusted: go/ssa; os.Exit semantics.",
    technique="dominance rules on SSA of the CLI (return-constant vs error-edge mapping, error-propagation rule)",
    design="4 C18")
+CLAIMED["C20"] = dict(
+   text="Provenance independence decided by a 'wrapped world' abstract interpretation of every function of vm: every source of operand values is assumed to be wrapped in an interface (as a value read from a container, struct field, channel, scope or interface{}-returning call is), tests on wrapped values are folded and infeasible edges pruned, and any kind-sensitive reflect operation, discriminating helper argument, or outcome decided by the wrapper on a never-unwrapped value is reported with the operation and the operand. The unwrap idiom is recognised semantically in all its spellings; helper parameters get summaries (tolerant / discriminating). Because the analysis is over operations x operand positions and not over values, it covers all provenance chains of any length (a chain only ever adds the one wrapper the simulation assumes). On today's tree it reproduces the five sites the statement lists as missing plus three more (all repaired).",
+   note="Trusted: go/ssa, the list of kind-sensitive reflect operations, the assumption that wrappers are interface{} slots. CanAddr/CanSet differences between an element and a copy are treated as intended aliasing.",
+   technique="abstract interpretation on SSA (taint-style typestate: wrapped / unwrapped) with path folding and helper summaries",
+   design="4 C20")
 NOT_YET = "checker for this property is not built yet in this revision (see DESIGN.md section 4 for the planned static rules)"
 ALL = ["C%02d" % i for i in range(1, 21)]
 
